@@ -13,7 +13,10 @@
  *   screen W H pw utf8 defer      create the screen (first op). pw=1: passwords {"full","view"},
  *                                 second one view-only. utf8=1: setXCutTextUTF8 hook installed.
  *                                 defer: deferPtrUpdateTime in ms (0 = library default)
- *   conn N                        rfbNewClient
+ *   conn N [ws]                   rfbNewClient; `ws`: the connection is a WebSocket one (the upgrade
+ *                                 request is the first input; afterwards every segment of a `send`
+ *                                 travels as ONE masked binary frame, so `cuts=` are frame boundaries;
+ *                                 `one=1` lets all frames of the op arrive in a single TCP segment)
  *   send N HEX [cuts=a,b,..]      deliver bytes, run rfbProcessClientMessage while input remains
  *   sendgen N HEX n seed [cuts=]  same, bytes = HEX ++ n pseudo-random bytes (splitmix64(seed))
  *   auth N full|view|bad [cuts=]  deliver the DES response to the pending challenge
@@ -37,7 +40,8 @@
 #define MAXFD 1024
 typedef struct chunk { unsigned char *p; size_t n; struct chunk *next; } chunk;
 typedef struct {
-  int used, id, srvfd, peer, eof, closed_reported, hooked_gone;
+  int used, id, srvfd, peer, eof, closed_reported, hooked_gone, ws;
+  unsigned maskctr;
   rfbClientPtr cl;
   unsigned char *arr; size_t arr_n, arr_off;   /* arrived, unread */
   chunk *pend, *pend_tail;                     /* in flight */
@@ -177,24 +181,53 @@ static void report(void) {
 }
 static void bad(void) { puts("bad-op"); fflush(stdout); }
 
+extern rfbBool webSocketsHasDataInBuffer(rfbClientPtr cl);
+
+static void queue_chunk(conn *c, unsigned char *p, size_t n) {   /* takes ownership of p */
+  chunk *k = (chunk *)calloc(1, sizeof *k);
+  k->n = n; k->p = p;
+  if (c->pend_tail) c->pend_tail->next = k; else c->pend = k;
+  c->pend_tail = k;
+}
+/* one masked binary WebSocket frame (client -> server) carrying n payload bytes */
+static unsigned char *ws_frame(conn *c, const unsigned char *p, size_t n, size_t *outn) {
+  unsigned char *f = (unsigned char *)malloc(n + 14), m[4]; size_t h = 0, i;
+  unsigned v = ++c->maskctr * 2654435761u;
+  m[0] = (unsigned char)(v >> 24); m[1] = (unsigned char)(v >> 16); m[2] = (unsigned char)(v >> 8); m[3] = (unsigned char)v;
+  f[h++] = 0x82;
+  if (n < 126) f[h++] = (unsigned char)(0x80 | n);
+  else if (n < 65536) { f[h++] = 0x80 | 126; f[h++] = (unsigned char)(n >> 8); f[h++] = (unsigned char)n; }
+  else { f[h++] = 0x80 | 127; for (i = 0; i < 8; i++) f[h++] = (unsigned char)((uint64_t)n >> (8 * (7 - i))); }
+  memcpy(f + h, m, 4); h += 4;
+  for (i = 0; i < n; i++) f[h + i] = p[i] ^ m[i & 3];
+  *outn = h + n;
+  return f;
+}
 /* queue `n` bytes for connection c in the given segmentation, then let the server consume them */
-static void deliver(conn *c, const unsigned char *p, size_t n, const char *cuts) {
+static void deliver(conn *c, const unsigned char *p, size_t n, const char *cuts, int one) {
   size_t prev = 0;
   const char *s = cuts;
+  vh_buf all = {0};
   for (;;) {
-    size_t cut = n; chunk *k;
+    size_t cut = n, len;
     if (s && *s) { cut = (size_t)strtoul(s, (char **)&s, 10); if (*s == ',') s++; if (cut > n) cut = n; if (cut < prev) cut = prev; }
-    k = (chunk *)calloc(1, sizeof *k);
-    k->n = cut - prev; k->p = (unsigned char *)malloc(k->n ? k->n : 1);
-    memcpy(k->p, p + prev, k->n);
-    if (c->pend_tail) c->pend_tail->next = k; else c->pend = k;
-    c->pend_tail = k;
+    len = cut - prev;
+    if (!c->ws) {
+      unsigned char *q = (unsigned char *)malloc(len ? len : 1);
+      memcpy(q, p + prev, len);
+      queue_chunk(c, q, len);
+    } else if (len) {                       /* an empty segment carries no frame */
+      size_t fn; unsigned char *f = ws_frame(c, p + prev, len, &fn);
+      if (one) { vh_buf_add(&all, f, fn); free(f); } else queue_chunk(c, f, fn);
+    }
     prev = cut;
     if (cut >= n && !(s && *s)) break;
   }
+  if (c->ws && one && all.n) { queue_chunk(c, all.p, all.n); all.p = NULL; }
+  free(all.p);
   while (is_open(c)) {
     while (avail(c) == 0 && c->pend) arrive(c);      /* the event loop sleeps until a segment with data arrives */
-    if (avail(c) == 0) break;
+    if (avail(c) == 0 && !(c->cl->wsctx && webSocketsHasDataInBuffer(c->cl))) break;
     rfbProcessClientMessage(c->cl);
     drain(c);
   }
@@ -209,6 +242,11 @@ static uint64_t sm_next(void) {
   return z ^ (z >> 31);
 }
 
+static int one_of(char **tok, int n, int from) {
+  int i;
+  for (i = from; i < n; i++) if (!strcmp(tok[i], "one=1")) return 1;
+  return 0;
+}
 static const char *cuts_of(char **tok, int n, int from) {
   int i;
   for (i = from; i < n; i++) if (!strncmp(tok[i], "cuts=", 5)) return tok[i] + 5;
@@ -240,15 +278,19 @@ int main(void) {
       scr->deferPtrUpdateTime = atoi(tok[5]);
       puts("ok"); fflush(stdout);
     } else if (!scr) { bad();
-    } else if (!strcmp(tok[0], "conn") && n == 2) {
+    } else if (!strcmp(tok[0], "conn") && (n == 2 || (n == 3 && !strcmp(tok[2], "ws")))) {
       int id = atoi(tok[1]), sv[2]; conn *c;
       if (id < 0 || id >= MAXC || conns[id].used) { bad(); continue; }
       if (socketpair(AF_UNIX, SOCK_STREAM, 0, sv) < 0 || sv[0] >= MAXFD) { fprintf(stderr, "socketpair\n"); return 2; }
       fcntl(sv[1], F_SETFL, fcntl(sv[1], F_GETFL) | O_NONBLOCK);
       { int sz = 4 << 20; setsockopt(sv[0], SOL_SOCKET, SO_SNDBUF, &sz, sizeof sz); setsockopt(sv[1], SOL_SOCKET, SO_RCVBUF, &sz, sizeof sz); }
       c = &conns[id]; memset(c, 0, sizeof *c);
-      c->used = 1; c->id = id; c->srvfd = sv[0]; c->peer = sv[1];
+      c->used = 1; c->id = id; c->srvfd = sv[0]; c->peer = sv[1]; c->ws = n == 3;
       vfd[sv[0]] = c;
+      if (c->ws) {     /* the upgrade request has arrived when the server accepts the connection */
+        static const char *req = "GET / HTTP/1.1\r\nHost: h\r\nOrigin: o\r\nSec-WebSocket-Key: dGhlIHNhbXBsZSBub25jZQ==\r\nSec-WebSocket-Version: 13\r\nSec-WebSocket-Protocol: binary\r\n\r\n";
+        c->arr_n = strlen(req); c->arr = (unsigned char *)malloc(c->arr_n); memcpy(c->arr, req, c->arr_n); c->arr_off = 0;
+      }
       c->cl = rfbNewClient(scr, sv[0]);
       if (c->cl) { c->cl->clientData = c; c->cl->clientGoneHook = gone_hook; }
       drain(c);
@@ -262,7 +304,7 @@ int main(void) {
       m = vh_unhex(tok[2], b, hl);
       if (m < 0) { free(b); bad(); continue; }
       if (gen) { sm_state = strtoull(tok[4], NULL, 10); for (i = 0; i < extra; i++) b[m + i] = (unsigned char)(sm_next() & 0xff); }
-      deliver(c, b, (size_t)m + extra, cuts_of(tok, n, gen ? 5 : 3));
+      deliver(c, b, (size_t)m + extra, cuts_of(tok, n, gen ? 5 : 3), one_of(tok, n, gen ? 5 : 3));
       free(b);
       report();
     } else if (!strcmp(tok[0], "auth") && n >= 3) {
@@ -273,7 +315,7 @@ int main(void) {
       else if (!strcmp(tok[2], "view")) rfbEncryptBytes(resp, pws[1]);
       else if (!strcmp(tok[2], "bad")) { rfbEncryptBytes(resp, pws[0]); resp[5] ^= 0x10; }
       else { bad(); continue; }
-      deliver(c, resp, CHALLENGESIZE, cuts_of(tok, n, 3));
+      deliver(c, resp, CHALLENGESIZE, cuts_of(tok, n, 3), one_of(tok, n, 3));
       report();
     } else if (!strcmp(tok[0], "viewonly") && n == 3) {
       conn *c = getconn(tok[1]);
